@@ -440,6 +440,47 @@ func init() {
 				problem("C12: DateTime.String no longer prints through exactly one time.Time.String() / Format(<known layout>) call")
 			}
 		}
+		// ---- ParseLql post-check: a Range without any time point is rejected
+		rejectsEmptyRange := false
+		if fd := funcDecl(f, "", "ParseLql"); fd == nil {
+			problem("C12: func ParseLql not found")
+		} else {
+			ast.Inspect(fd.Body, func(n ast.Node) bool {
+				is, ok := n.(*ast.IfStmt)
+				if !ok {
+					return true
+				}
+				sel := map[string]bool{}
+				nilCmp := 0
+				ast.Inspect(is.Cond, func(x ast.Node) bool {
+					switch y := x.(type) {
+					case *ast.SelectorExpr:
+						sel[y.Sel.Name] = true
+					case *ast.BinaryExpr:
+						if id, ok := y.Y.(*ast.Ident); ok && id.Name == "nil" && y.Op == token.EQL {
+							nilCmp++
+						}
+					}
+					return true
+				})
+				returnsErr := false
+				ast.Inspect(is.Body, func(x ast.Node) bool {
+					if r, ok := x.(*ast.ReturnStmt); ok && len(r.Results) == 2 {
+						if id, ok := r.Results[0].(*ast.Ident); ok && id.Name == "nil" {
+							if id2, ok := r.Results[1].(*ast.Ident); !ok || id2.Name != "nil" {
+								returnsErr = true
+							}
+						}
+					}
+					return true
+				})
+				if sel["Range"] && sel["TmPoint1"] && sel["TmPoint2"] && nilCmp >= 2 && returnsErr {
+					rejectsEmptyRange = true
+				}
+				return true
+			})
+		}
+		fmt.Fprintf(&sb, "/-- `ParseLql` rejects a SELECT whose Range has neither time point (post-check after the participle parse) -/\ndef parseLqlRejectsEmptyRange : Bool := %s\n", leanBool(rejectsEmptyRange))
 		fmt.Fprintf(&sb, "/-- `Truncate.makeString` prints MINSIZE / MAXSIZE without converting them to `int64` -/\ndef truncateSizesUnsigned : Bool := %s\n", leanBool(unsignedSizes))
 		fmt.Fprintf(&sb, "/-- … and MAXDBSIZE likewise -/\ndef truncateDbSizeUnsigned : Bool := %s\n", leanBool(unsignedDb))
 		fmt.Fprintf(&sb, "/-- `Truncate.makeString` has a clause for `MaxDbSize` -/\ndef truncatePrintsMaxDbSize : Bool := %s\n", leanBool(printsMaxDb))
